@@ -770,10 +770,21 @@ def WFr (proj : Project) (rank : List Nat) : Bool :=
   namesUnique proj && basesNonempty proj && noStarInClass proj && rootsReserved proj &&
   namesOk proj && reexportShape proj
 
-/-- where the documentation of the object defined at `p` ends up: below its re-exporter, if it has one -/
+/-- the qualified name under which the object defined at site `S` is documented once the re-exports
+`mv` says have happened have happened: below the re-exporter, if its top-level definition was moved -/
+def relocSite (proj : Project) (mv : (Nat × Name × Nat × Name) → Bool) (S : Site) : Path :=
+  match S.2 with
+  | [] => sitePath proj S
+  | n :: rest =>
+    match (reexportReqs proj).find? (fun r => r.1 == S.1 && r.2.1 == n && mv r) with
+    | some r => pathOf proj r.2.2.1 ++ [r.2.2.2] ++ rest
+    | none => sitePath proj S
+
+/-- where the documentation of the object defined at `p` ends up when every module has been processed:
+below its re-exporter, if it has one -/
 def finalLocPath (proj : Project) (p : Path) : Path :=
-  match (reexportReqs proj).find? (fun r => (pathOf proj r.1 ++ [r.2.1]).isPrefixOf p) with
-  | some r => pathOf proj r.2.2.1 ++ [r.2.2.2] ++ p.drop ((pathOf proj r.1).length + 1)
+  match (entities proj).find? (fun S => sitePath proj S == p) with
+  | some S => relocSite proj (fun _ => true) S
   | none => p
 
 /-- identity by definition site ↦ identity by final documented location -/
